@@ -239,6 +239,7 @@ func catalogue() []mechType {
 				s(genericAuthn, "forward_headers", cc+"forward_headers[0]", "x-foo"),
 				s(genericAuthn, "forward_cookies", cc+"forward_cookies[0]", "sess"),
 				s(genericAuthn, "payload", cc+"payload", "foo"),
+				s(genericAuthn, "payload-empty", cc+"payload", `""`),
 				s("subject", "attributes", cc+"subject.attributes", "attrs"),
 				s(genericAuthn, "cache_ttl", cc+"cache_ttl", "5m"),
 				s(genericAuthn, "allow_fallback_on_error", cc+"allow_fallback_on_error", "true"),
@@ -294,6 +295,7 @@ func catalogue() []mechType {
 				s(remote, "forward_response_headers_to_upstream", cc+"forward_response_headers_to_upstream[0]", "x-foo"),
 				s(remote, "cache_ttl", cc+"cache_ttl", "5m"),
 				s(remote, "values", cc+"values.foo", "bar"),
+				s(remote, "values-empty-entry", cc+"values.foo", `""`),
 			}, endpointOptions("endpoint", false))},
 			{"headers-instead-of-payload", lv(cc+"endpoint.url", "http://az.local/check", cc+"endpoint.headers.foo", "bar"), nil},
 		}},
@@ -302,6 +304,9 @@ func catalogue() []mechType {
 				s(ctxGeneric, "forward_headers", cc+"forward_headers[0]", "x-foo"),
 				s(ctxGeneric, "forward_cookies", cc+"forward_cookies[0]", "sess"),
 				s(ctxGeneric, "payload", cc+"payload", "foo"),
+				// present and empty: no payload (a template of nothing)
+				s(ctxGeneric, "payload-empty", cc+"payload", `""`),
+				s(ctxGeneric, "values-empty-entry", cc+"values.foo", `""`),
 				s(ctxGeneric, "cache_ttl", cc+"cache_ttl", "5m"),
 				s(ctxGeneric, "continue_pipeline_on_error", cc+"continue_pipeline_on_error", "true"),
 				s(ctxGeneric, "values", cc+"values.foo", "bar"),
